@@ -48,3 +48,15 @@ package runtime
 //@ ensures old(r.ContentLength) <= 0 ==> calls(G) == 1 && arg(G,0,0) == old(r.Header) && arg(G,0,1) == "Content-Length"
 //@ ensures old(r.ContentLength) <= 0 && ret(G,0,0) != "" ==> !result && calls(NP) == 0 && r.Body == old(r.Body)
 //@ ensures old(r.ContentLength) <= 0 && ret(G,0,0) == "" ==> calls(NP) == 1 && arg(NP,0,0) == old(r.Body) && calls(HC) == 1 && arg(HC,0,0) == ret(NP,0,0) && result == ret(HC,0,0) && r.Body == boxof(ret(NP,0,0))
+
+// ---------------------------------------------------------------- headers.go (C06)
+
+//@ func ContentType
+//@ watch G = call (net/http.Header).Get
+//@ watch PM = call mime.ParseMediaType
+//@ watch PE = call github.com/go-openapi/errors.NewParseError
+//@ ensures [C06:get] calls(G) == 1 && arg(G,0,0) == headers && arg(G,0,1) == "Content-Type"
+//@ ensures [C06:absent] ret(G,0,0) == "" && old(DefaultMime) == "" ==> result0 == "" && result1 == "" && result2 == nil && calls(PM) == 0
+//@ ensures [C06:parse] !(ret(G,0,0) == "" && old(DefaultMime) == "") ==> calls(PM) == 1 && arg(PM,0,0) == (ret(G,0,0) == "" ? old(DefaultMime) : ret(G,0,0))
+//@ ensures [C06:malformed] calls(PM) == 1 && ret(PM,0,2) != nil ==> result0 == "" && result1 == "" && calls(PE) == 1 && result2 == boxof(ret(PE,0,0)) && arg(PE,0,0) == "Content-Type"
+//@ ensures [C06:ok] calls(PM) == 1 && ret(PM,0,2) == nil ==> result0 == ret(PM,0,0) && result2 == nil && result1 == (in("charset", ret(PM,0,1)) ? ret(PM,0,1)["charset"] : "")
